@@ -216,7 +216,17 @@ pub fn solve(kind: SolverKind, lm: &LinearModel, opts: &Opts, timeout: Duration)
             kill(&mut guard);
             continue;
         }
-        match w.rx.recv_timeout(timeout) {
+        // a hang is a call that BURNS its time limit: when the machine is loaded the worker may simply not have
+        // been scheduled, so the wall-clock wait is extended while the worker's own CPU time stays below the limit
+        let cpu0 = cpu_time(w.child.id());
+        let mut got = w.rx.recv_timeout(timeout);
+        let mut extensions = 0;
+        while matches!(got, Err(std::sync::mpsc::RecvTimeoutError::Timeout)) && extensions < 20
+            && cpu_time(w.child.id()).saturating_sub(cpu0) < timeout.mul_f64(0.8) {
+            extensions += 1;
+            got = w.rx.recv_timeout(timeout);
+        }
+        match got {
             Ok(line) => match serde_json::from_str::<Outcome>(&line) {
                 Ok(o) => return o,
                 Err(e) => { kill(&mut guard); return Outcome::Panic(format!("worker answered garbage: {} ({})", line, e)); }
@@ -231,6 +241,19 @@ pub fn solve(kind: SolverKind, lm: &LinearModel, opts: &Opts, timeout: Duration)
         }
     }
     Outcome::Panic("could not talk to the worker".into())
+}
+
+/// user + system CPU time the process has consumed so far (Linux: /proc/<pid>/stat fields 14 and 15, in clock ticks
+/// of 1/100 s); unknown -> "infinitely much", i.e. the plain wall-clock rule applies
+fn cpu_time(pid: u32) -> Duration {
+    let stat = match std::fs::read_to_string(format!("/proc/{}/stat", pid)) { Ok(s) => s, Err(_) => return Duration::MAX };
+    // the command name (field 2) may contain spaces: fields are counted after the closing parenthesis
+    let rest = match stat.rfind(')') { Some(i) => &stat[i + 1..], None => return Duration::MAX };
+    let f: Vec<&str> = rest.split_whitespace().collect();
+    match (f.get(11).and_then(|x| x.parse::<u64>().ok()), f.get(12).and_then(|x| x.parse::<u64>().ok())) {
+        (Some(u), Some(s)) => Duration::from_millis((u + s) * 10),
+        _ => Duration::MAX,
+    }
 }
 
 fn kill(g: &mut Option<Worker>) {
@@ -273,7 +296,7 @@ pub fn worker_main() {
     }
 }
 
-fn err_variant(e: &rooc::SolverError) -> &'static str {
+pub fn err_variant(e: &rooc::SolverError) -> &'static str {
     use rooc::SolverError::*;
     match e {
         InvalidDomain { .. } => "InvalidDomain", TooLarge { .. } => "TooLarge", DidNotSolve => "DidNotSolve",
@@ -290,7 +313,7 @@ fn status_name(s: rooc::SolutionStatus) -> &'static str {
 }
 fn fmap(m: &IndexMap<String, f64>) -> Vec<(String, F)> { m.iter().map(|(k, v)| (k.clone(), F(*v))).collect() }
 
-fn pack_milp(lm: &LinearModel, r: Result<rooc::LpSolution<rooc::MILPValue>, rooc::SolverError>) -> Outcome {
+pub fn pack_milp(lm: &LinearModel, r: Result<rooc::LpSolution<rooc::MILPValue>, rooc::SolverError>) -> Outcome {
     let conv = |v: rooc::MILPValue| match v { rooc::MILPValue::Bool(b) => Val::Bool(b), rooc::MILPValue::Int(i) => Val::Int(i), rooc::MILPValue::Real(r) => Val::Real(r) };
     match r {
         Ok(s) => Outcome::Solution(Sol {
